@@ -143,11 +143,14 @@ def build_atoms(n, bonds, elements):
 RULESETS = [None, None, [({"C_R", "N_R"}, 1.41), ({"C_R"}, 1.5)], [({"C_R", "O_2"}, 1.5), ({"Zr8f4", "O_2"}, 0.5), ({"C_2"}, 1), ({"O_3", "C_3"}, 2)]]
 
 
-def run_pipeline(n, bonds, utypes, exclude, rules=None):
-    """the documented parameterisation workflow on the real functions -> atoms (or the exception from dihedral typing)"""
+def run_pipeline(n, bonds, utypes, exclude, rules=None, index_dtype=None):
+    """the documented parameterisation workflow on the real functions -> atoms (or the exception from dihedral typing).
+    index_dtype: the bond list as an index array of another integer width (as read with np.loadtxt(dtype=np.int32), from HDF5, ...)"""
     import mofun.rough_uff as ru
     els = [t[0:2].replace("_", "") if t != "Du" else "H" for t in utypes]
     a = build_atoms(n, bonds, els)
+    if index_dtype is not None:
+        a.bonds = np.asarray(a.bonds).astype(index_dtype)
     a.angles = ru.calc_angles(a.bonds)
     a.dihedrals = ru.calc_dihedrals(a.bonds)
     enum = (np.asarray(a.angles).reshape(-1, 3).copy(), np.asarray(a.dihedrals).reshape(-1, 4).copy())
@@ -221,7 +224,10 @@ def run_case(case, ctx):
     rules = RULESETS[case["s"] % len(RULESETS)]
     if rules is not None:
         st.count("graphs_typed_with_user_bond_order_rules")
-    a, (angles, dihedrals), err = run_pipeline(n, bonds, utypes, exclude, rules)
+    idt = [None, np.int32, None, np.int16, None, np.uint32][case["s"] % 6]
+    if idt is not None:
+        st.count("graphs_whose_bond_list_is_an_index_array_of_another_integer_width")
+    a, (angles, dihedrals), err = run_pipeline(n, bonds, utypes, exclude, rules, index_dtype=idt)
     st.count("graphs")
     st.seen("shape", case["shape"])
     if max(len(v) for v in adj.values()) >= 9:
@@ -420,6 +426,8 @@ def requirements(stats, tier):
         need.append("enumerations with shifted atom indices: %d" % stats.get("enumerations_with_shifted_indices"))
     if stats.get("graphs") < (350 if tier == "quick" else 250000):
         need.append("too few graphs: %d" % stats.get("graphs"))
+    if stats.get("graphs_whose_bond_list_is_an_index_array_of_another_integer_width") < (50 if tier == "quick" else 5000):
+        need.append("graphs whose bond list is an int32/int16/uint32 array: %d" % stats.get("graphs_whose_bond_list_is_an_index_array_of_another_integer_width"))
     if stats.get("graphs_with_an_atom_of_nine_or_more_neighbours") < (10 if tier == "quick" else 1000):
         need.append("graphs with an atom of nine or more neighbours: %d" % stats.get("graphs_with_an_atom_of_nine_or_more_neighbours"))
     if stats.nseen("shape") < 5 or stats.nseen("type_source") < 3 or stats.nseen("exclude_class") < 3:
